@@ -60,15 +60,10 @@ def run(repo, rep, tier):
         hsizes = rsa_sizes if hkind == 'rsa' else ecc_sizes
         csizes = [0] if ckind is None else (rsa_sizes if ckind == 'rsa' else ecc_sizes)
         for hs, cs in itertools.product(hsizes, csizes):
-            env = dict(consts)
-            env.update({'cert': cert, 'host_key_type': hkt, 'hostkey_modulus_size': hs, 'ca_key_type': cat, 'ca_modulus_size': cs, 'key_fail_comments': [], 'key_warn_comments': []})
-            try:
-                track_block([blk], env, tracked, on_eval=rep.evals)
-            except Unknown as e:
-                raise AnalysisError('rating block not interpretable: %s' % e)
+            all_fails, warns = _hostkey_rating.rate_key(blk, consts, hkt, cert, hs, cat, cs, on_eval=rep.evals, repo=repo)
+            env = {'key_fail_comments': all_fails, 'key_warn_comments': warns}
             ncases += 1
-            fails = [c for c in env['key_fail_comments'] if 'backdoored' not in str(c)]
-            warns = list(env['key_warn_comments'])
+            fails = [c for c in all_fails if 'backdoored' not in str(c)]
             hthr = RSA_T if hkind == 'rsa' else ECC_T
             exp_f, exp_w = 0, set()
             hr = rate(hs, hthr)
